@@ -523,6 +523,24 @@ func runPrefetchFw(cs string) string {
 		}
 	}
 	dnsmsg.ReleaseMsg(q)
+	// the request is released (as a listener does when the handler returns): the next requests take its buffers.
+	// Names of the same length, other content: a refresh that still looks at the released question sees these.
+	var scribble []dnsmsg.Name
+	for i := 0; i < 8 && len(name) >= 2; i++ {
+		other := make([]byte, 0, len(name))
+		if len(name)%2 == 1 {
+			other = append(other, 2, 'z', 'z')
+		}
+		for len(other) < len(name) {
+			other = append(other, 1, byte('p'+i))
+		}
+		scribble = append(scribble, nameBuf(other))
+	}
+	defer func() {
+		for _, b := range scribble {
+			dnsmsg.ReleaseName(b)
+		}
+	}()
 	if resp == nil {
 		return "nil-response"
 	}
